@@ -239,8 +239,11 @@ def ob_reader_names(ctx, STEP, N):
 
 
 def _extract():
+    import os
     from sx.extract import loop_step
     import pydiffx.reader as R
+    if os.environ.get('SX_FORCE_SKIP_STEPS'):
+        return None, 'SX_FORCE_SKIP_STEPS set (experiment: how much do the public-API obligations catch alone?)'
     try:
         step, info = loop_step(R.DiffXReader.iter_sections)
     except Exception as e:
